@@ -438,6 +438,9 @@ _BF_A = "    /// Get `k` (number of hash functions).\n"
 B("C01", "new-api-bloom-set-positions-directly", (BF, _BF_A, "    /// Mark the given bit positions.\n    pub fn mark(&mut self, positions: &[usize]) {\n        for pos in positions {\n            self.bs.put(*pos % self.bs.len());\n        }\n    }\n\n" + _BF_A))
 M("C01", "new-api-bloom-clear-a-bit", (BF, _BF_A, "    /// Unmark the given bit position.\n    pub fn unmark(&mut self, pos: usize) {\n        self.bs.set(pos % self.bs.len(), false);\n    }\n\n" + _BF_A), "R01-new-writers", "unmark")
 
+# ---- closing mutant round (round 17): the one miss
+M("C11", "qf-clear-allocates-blocks-for-elements", (QF, "            IntVector::with_fill(self.remainders.element_bits(), self.remainders.len(), 0);", "            IntVector::block_with_fill(self.remainders.element_bits(), self.remainders.len() as usize, 0);"), "R11-alloc-terms", "clear:remainders")
+
 
 def main():
     out = os.path.join(os.path.dirname(os.path.abspath(__file__)), "corpus.json")
